@@ -178,6 +178,21 @@ Definition attribute_line (obj attr : string) : result string :=
   | Error e => Error e
   end.
 
+(* a user C++ function declared by add_cpp_function metadata with the parameters (p0, p1, p2) and the code line
+   below, called as f(obj, <constant>, <later argument>).  mirrors cpp_ast.py: build_CPPCodeValue (args = the
+   declared parameter names) + process_ast_node: repl_list = zip(parameter names, C++ text of the call's
+   arguments), every code line goes through replace_whole_words *)
+Definition user_template (p0 p1 p2 : string) : string :=
+  "double result = g_labelled_value(*" +++ p0 +++ ", " +++ p1 +++ ", " +++ p2 +++ ");".
+Definition user_call_line (p0 p1 p2 obj : string) (c : const) (later : string) : result string :=
+  match render c with
+  | OK (txt, _) => OK (subst_line [(p0, obj); (p1, txt); (p2, later)] (user_template p0 p1 p2))
+  | Error e => Error e
+  end.
+(* the parameter-name triples the check declares *)
+Definition user_params : list (string * (string * string)) :=
+  [("jet", ("label", "bin")); ("obj", ("name", "idx")); ("p", ("s", "n")); ("particle", ("tag", "pt"))].
+
 (* ---------- query_ast_visitor.py (three files) ---------- *)
 (* mirrors book_xaod_ttree.emit / book_cms_aod_ttree.emit / book_cms_miniaod_ttree.emit;
    leaves = (column name, C++ variable) *)
@@ -259,6 +274,13 @@ Definition run_literal_at (a : sexp) : sexp :=
       | Some (l, rest) => s_tag "some" [s_literal l; SAtom rest]
       | None => s_tag "none" []
       end
+  | _ => bad_input
+  end.
+(* (p0 p1 p2 obj const later) -> (ok line) | (error E) *)
+Definition run_user_call (a : sexp) : sexp :=
+  match a with
+  | SList [SAtom p0; SAtom p1; SAtom p2; SAtom obj; c; SAtom later] =>
+      match d_const c with Some c' => s_result s_str (user_call_line p0 p1 p2 obj c' later) | None => bad_input end
   | _ => bad_input
   end.
 (* float repr text -> in Python's finite repr grammar? in the C++ floating-literal grammar (sign stripped)? *)
